@@ -157,6 +157,12 @@ pub struct WalletSim {
     /// heights whose block data the wallet holds (they stay in `scanned`) but which the scan queue was told to
     /// scan again (forced rescan through rewind_to_chain_state / queue_rescans)
     pub requeued: BTreeSet<u32>,
+    /// heights scanned in a batch that lay below the lowest checkpoint some pool's tree held at the time: update_tree
+    /// does not add cross-pool checkpoints below a tree's minimum (documented there), so the pools need not agree here
+    pub below_min_scanned: BTreeSet<u32>,
+    /// the highest height that has ever been at or below some pool's pruning horizon (its 100th newest checkpoint
+    /// while it held 100 or more): pruning is lazy and per pool, so at or below it the pools need not agree
+    pub align_floor: u32,
     pub t_coins: Vec<TCoin>,
     /// the client passes subtree roots on (it has done so at least once) / the chain has changed since it last did
     pub roots_put: bool,
@@ -262,6 +268,8 @@ impl WalletSim {
             late_boundaries: BTreeSet::new(),
             frontier_starts: BTreeSet::new(),
             requeued: BTreeSet::new(),
+            below_min_scanned: BTreeSet::new(),
+            align_floor: 0,
             t_coins: vec![],
             roots_put: false,
             roots_stale: false,
@@ -504,6 +512,26 @@ impl WalletSim {
                 self.frontier_starts.insert(a - 1);
             } else {
                 ctx.probe("batch_start_frontier_beyond_pruning_budget");
+            }
+        }
+        for t in ["sapling", "orchard", "ironwood"] {
+            if let Ok(h) = self.conn.query_row(&format!("SELECT checkpoint_id FROM {t}_tree_checkpoints ORDER BY checkpoint_id DESC LIMIT 1 OFFSET 99"), [], |r| r.get::<_, u32>(0)) {
+                self.align_floor = self.align_floor.max(h);
+            }
+        }
+        if b > a && a > 0 {
+            // did some pool hold no checkpoint below this batch (other than the batch's own starting frontier)?
+            let some_pool_had_none_below = ["sapling", "orchard", "ironwood"].iter().any(|t| {
+                let n_all: i64 = self.conn.query_row(&format!("SELECT COUNT(*) FROM {t}_tree_checkpoints"), [], |r| r.get(0)).unwrap_or(0);
+                let n_below: i64 = self.conn.query_row(&format!("SELECT COUNT(*) FROM {t}_tree_checkpoints WHERE checkpoint_id < ?1"), [a - 1], |r| r.get(0)).unwrap_or(0);
+                let n_above: i64 = self.conn.query_row(&format!("SELECT COUNT(*) FROM {t}_tree_checkpoints WHERE checkpoint_id >= ?1"), [b], |r| r.get(0)).unwrap_or(0);
+                n_all > 0 && n_below == 0 && n_above > 0
+            });
+            if some_pool_had_none_below {
+                for h in (a - 1)..b {
+                    self.below_min_scanned.insert(h);
+                }
+                ctx.probe("batch_below_a_trees_lowest_checkpoint");
             }
         }
         if let Some(act) = self.cfg.nu6_3 {
@@ -835,6 +863,7 @@ impl WalletSim {
     pub fn model_truncated(&mut self, got: u32, ctx: &mut RunCtx) {
         self.frontier_starts.retain(|x| *x <= got);
         self.requeued.retain(|x| *x <= got);
+        self.below_min_scanned.retain(|x| *x <= got);
         for c in self.t_coins.iter_mut().filter(|c| c.height > got) {
             if c.state == TState::Mined {
                 ctx.probe("rewind_unmines_transparent_coin");
@@ -1447,10 +1476,10 @@ impl WalletSim {
             let exempt = |h: u32| matches!((step, act), (Some(st), Some(a)) if h >= a && h % st == 0);
             let prunable = |c: &Vec<(u32, Option<u64>)>| -> BTreeSet<u32> { c.iter().map(|x| x.0).filter(|h| !exempt(*h)).collect() };
             // only the 100 newest prunable checkpoints of a pool are stable; older ones await lazy pruning
-            let floor = active.iter().filter_map(|(_, c)| prunable(c).iter().rev().take(100).last().copied()).max().unwrap_or(0);
-            let s0: BTreeSet<u32> = prunable(&active[0].1).into_iter().filter(|x| *x >= floor).collect();
+            let floor = active.iter().filter_map(|(_, c)| prunable(c).iter().rev().take(100).last().copied()).max().unwrap_or(0).max(self.align_floor + 1);
+            let s0: BTreeSet<u32> = prunable(&active[0].1).into_iter().filter(|x| *x >= floor && !self.below_min_scanned.contains(x)).collect();
             for (p, c) in active.iter().skip(1) {
-                let s: BTreeSet<u32> = prunable(c).into_iter().filter(|x| *x >= floor).collect();
+                let s: BTreeSet<u32> = prunable(c).into_iter().filter(|x| *x >= floor && !self.below_min_scanned.contains(x)).collect();
                 if s != s0 {
                     let diff: Vec<u32> = s.symmetric_difference(&s0).copied().take(6).collect();
                     let summary: Vec<String> = active.iter().map(|(p, c)| format!("{}: {} checkpoints {}..{}", p.name(), c.len(), c.first().map(|x| x.0).unwrap_or(0), c.last().map(|x| x.0).unwrap_or(0))).collect();
